@@ -137,10 +137,12 @@ class RefTablePolicy:
         self.logits = np.asarray(tables["logits"], dtype=np.float64)
         self.kbias = np.asarray(tables["kbias"], dtype=np.float64)
         self.values = np.asarray(tables["values"], dtype=np.float64)
+        self.vbias = np.asarray(tables.get("vbias", [0.0] * KB), dtype=np.float64)
         self.scale = np.asarray(tables["scale"], dtype=np.float64)
 
-    def value(self, s: int) -> float:
-        return float(self.values[s])
+    def value(self, s: int, k: int = 0) -> float:
+        """Critic value of state ``s`` evaluated with policy state ``k`` (calls since the policy's reset)."""
+        return float(self.values[s]) + float(self.vbias[min(int(k), KB - 1)])
 
     def params(self, s: int, k: int) -> np.ndarray:
         return self.logits[s] + self.kbias[min(int(k), KB - 1)]
